@@ -102,3 +102,45 @@ Definition reach_table (o : obs) (n p : nat) : option bool :=
   | OFoldR F2Fst _ => Some (Nat.eqb p 0)
   | _ => None
   end.
+
+(** * Well-formed cases of the main theorems
+
+    [wf_case k pos T]: the annotation [T] checks every component of [k] against [Number], and
+    every component other than the one at [pos] is a number or a failing component
+    (so that only the component at [pos] can violate).  For a record type / record contract the
+    listed names are exactly the fields of the record (for a record type, in the same order: the
+    contract rebuilds the record in the order of the type, and the order in which [==] looks at
+    the fields follows it). *)
+Definition atom_ok (a : atom) : bool := match a with AStr _ | AProbe => false | _ => true end.
+
+Fixpoint others_ok (i : nat) (xs : list atom) : bool :=
+  match xs, i with
+  | [], _ => true
+  | _ :: xs', 0 => forallb atom_ok xs'
+  | x :: xs', S i' => atom_ok x && others_ok i' xs'
+  end.
+
+Fixpoint rows_ok (i j : nat) (rows : list (list atom)) : bool :=
+  match rows, i with
+  | [], _ => true
+  | r :: rows', 0 => others_ok j r && forallb (forallb atom_ok) rows'
+  | r :: rows', S i' => forallb atom_ok r && rows_ok i' j rows'
+  end.
+
+Fixpoint nodupb (l : list string) : bool :=
+  match l with [] => true | x :: l' => negb (mem_str x l') && nodupb l' end.
+
+Definition wf_case (k : container) (pos : position) (T : ctr) : bool :=
+  match k, pos, T with
+  | KArr xs, [i], CArr CNum => others_ok i xs
+  | KArr2 rows, [i; j], CArr (CArr CNum) => rows_ok i j rows
+  | KRec fs, [i], CDictC CNum => others_ok i (map snd fs)
+  | KRec fs, [i], CDictT CNum => others_ok i (map snd fs)
+  | KRec fs, [i], CRecT names CNum =>
+      others_ok i (map snd fs) && (if list_eq_dec string_dec names (map fst fs) then true else false)
+      && nodupb names
+  | KRec fs, [i], CRecC names CNum _ =>
+      others_ok i (map snd fs) && forallb (fun f => mem_str (fst f) names) fs
+      && forallb (fun n => has_key n fs) names
+  | _, _, _ => false
+  end.
